@@ -266,7 +266,9 @@ def _tetra_system(seed, T=12, family=None, n_centres=2):
     lat = random_lattice(rng, scale=1.6, family=family)
     inv = np.linalg.inv(lat.matrix)
     tet = np.array([[1, 1, 1], [1, -1, -1], [-1, 1, -1], [-1, -1, 1]]) / np.sqrt(3) * 1.5
-    centres = np.array([[0.02, 0.5, 0.97], [0.55, 0.03, 0.48], [0.3, 0.8, 0.25], [0.8, 0.45, 0.6]])[:n_centres]
+    centres = np.array([[0.02, 0.5, 0.97], [0.55, 0.03, 0.48]])
+    if n_centres > 2:
+        centres = np.array([[0.02, 0.5, 0.97], [0.52, 0.0, 0.97], [0.52, 0.5, 0.47], [0.02, 0.0, 0.47]])[:n_centres]  # face-centred arrangement: as far apart as four points get
     coords = []
     for t in range(T):
         frame = []
@@ -294,6 +296,10 @@ def replay_orient(inputs):
     # fewer frames than molecules, and a single frame: every centre still has its four bonds at every frame
     for T_, nc_ in ((2, 3), (1, 2), (3, 4)):
         tj_, lt_ = _tetra_system(seed + 1, T=T_, family=inputs.get('family'), n_centres=nc_)
+        pc_ = np.asarray(tj_.filter('P').positions[0])
+        dcc = lt_.get_all_distances(pc_, pc_) + np.eye(nc_) * 1e9
+        if dcc.min() < 4.5:
+            continue  # molecules closer than three bond lengths: which satellites belong to which centre is not well defined (outside the stated family)
         try:
             vv = np.asarray(Orientations(tj_, 'P', 'O').vectors)
             if vv.shape != (T_, 4 * nc_, 3):
